@@ -92,6 +92,7 @@ def approved(c):
 
 contract("ext:FileSystem.exists", params=dict(self=FileSystem, path=TStr), returns=TBool,
          ensures=lambda c: c.result == files(c.h, c.self).contains(c.path), assumed=True, doc="fs.exists(path)")
+contract("ext:FileSystem.is_hardlink", params=dict(self=FileSystem, path=TStr), returns=TBool, assumed=True, doc="fs.is_hardlink(path): stat only")
 contract("ext:FileSystem.iscopy", params=dict(self=FileSystem, path=TStr), returns=TBool, assumed=True, doc="fs.iscopy(path): stat only")
 
 
